@@ -174,7 +174,34 @@ func intInfo(t types.Type) (bits int, signed bool, ok bool) {
 	return 0, false, false
 }
 
+// unaliasDeep replaces type aliases (type LogEntry = channels.LogEntry) by their targets, also under
+// pointers/slices/maps, so that an alias and its target share heap components and type tags.
+func unaliasDeep(t types.Type) types.Type {
+	t = types.Unalias(t)
+	switch u := t.(type) {
+	case *types.Pointer:
+		if e := unaliasDeep(u.Elem()); e != u.Elem() {
+			return types.NewPointer(e)
+		}
+	case *types.Slice:
+		if e := unaliasDeep(u.Elem()); e != u.Elem() {
+			return types.NewSlice(e)
+		}
+	case *types.Array:
+		if e := unaliasDeep(u.Elem()); e != u.Elem() {
+			return types.NewArray(e, u.Len())
+		}
+	case *types.Map:
+		k, e := unaliasDeep(u.Key()), unaliasDeep(u.Elem())
+		if k != u.Key() || e != u.Elem() {
+			return types.NewMap(k, e)
+		}
+	}
+	return t
+}
+
 func mangleType(t types.Type) string {
+	t = unaliasDeep(t)
 	s := types.TypeString(t, func(p *types.Package) string {
 		path := p.Path()
 		return strings.TrimPrefix(path, modPath+"/")
